@@ -65,6 +65,9 @@ def types_for(tier):
         if tier != "quick" or i % 3 == 0:
             if emit(d):
                 yield d
+    for d in T.medium(tier, max_cap=17 if tier == "quick" else 65):  # more than three of everything (decoding cost grows with the capacity)
+        if emit(d):
+            yield d
     if tier != "quick":
         for i, d in enumerate(c06.depth3(tier)):
             if i % 5 == 0 and emit(d):
